@@ -421,6 +421,87 @@ def name_layout(rng):
 
 
 # ------------------------------------------------------------------------------------------
+# chained compression pointers: every arrangement of 2 / 3 pointers in a small window BEFORE the
+# name, each targeting another pointer of the window (also itself, also forward), the label in
+# front of the window, the name itself, or a label behind the name; the name starts with a pointer
+# into the window (optionally after one label of its own)
+# ------------------------------------------------------------------------------------------
+def _ptr(off):
+    return be16(0xC000 | (off & 0x3FFF))
+
+
+def ptr_arrangements(k):
+    """yields (start_slot, targets) with targets[j] in 0..k-1 (slot), 'B' (label before), 'N' (the name), 'A' (label after)"""
+    import itertools
+    choices = list(range(k)) + ["B", "N", "A"]
+    for start in range(k):
+        for tg in itertools.product(choices, repeat=k):
+            yield start, tg
+
+
+def ptr_block(k, start, targets, lead_label=False, base=0):
+    """raw block: [base pad] label-before, k pointer slots, name, label-after.  Returns (bytes, name_offset)"""
+    b = bytearray(bytes(base))
+    lb = len(b)
+    b += b"\x01x\0"
+    slots = [len(b) + 2 * j for j in range(k)]
+    name = slots[-1] + 2
+    la = name + (2 if lead_label else 0) + 2
+    def tgt(t):
+        return lb if t == "B" else name if t == "N" else la if t == "A" else slots[t]
+    for j in range(k):
+        b += _ptr(tgt(targets[j]))
+    if lead_label:
+        b += b"\x01n"
+    b += _ptr(slots[start])
+    b += b"\x01y\0"
+    return bytes(b), name
+
+
+def ptr_message(k, start, targets, lead_label=False):
+    """the same arrangement inside a message: the window is the RDATA of a raw RR (type 10), the
+    label before is the question name, the name is the owner of the next RR (NS) whose RDATA name
+    is the label after"""
+    b = bytearray(hdr(1, 2))
+    lb = len(b)
+    b += b"\x01x\0" + be16(1) + be16(1)
+    b += b"\0" + be16(10) + be16(1) + be32(1) + be16(2 * k)
+    slots = [len(b) + 2 * j for j in range(k)]
+    name = slots[-1] + 2
+    la = name + (2 if lead_label else 0) + 2 + 10
+    def tgt(t):
+        return lb if t == "B" else name if t == "N" else la if t == "A" else slots[t]
+    for j in range(k):
+        b += _ptr(tgt(targets[j]))
+    if lead_label:
+        b += b"\x01n"
+    b += _ptr(slots[start])
+    b += be16(2) + be16(1) + be32(1) + be16(3) + b"\x01y\0"
+    return bytes(b), name
+
+
+def pointer_chain_cases(rng, tier):
+    out = []
+    for k in (2, 3):
+        arr = list(ptr_arrangements(k))
+        if k == 3 and tier != "thorough":
+            arr = rng.sample(arr, 220)
+        for start, tg in arr:
+            lead = rng.random() < 0.2
+            blk, name = ptr_block(k, start, tg, lead, base=rng.choice([0, 0, 5]))
+            out.append("n:%d:%d:%d|%s" % (name, len(blk), 1 if rng.random() < 0.9 else 0, blk.hex()))
+            if k == 2 or rng.random() < 0.6 or tier == "thorough":
+                m, _ = ptr_message(k, start, tg, lead)
+                out.append("p:0|%s" % m.hex())
+    return out
+
+
+def find_ptrs(data):
+    """offsets that look like compression pointers (for seeds without structure information)"""
+    return [i for i in range(12, len(data) - 1) if data[i] & 0xC0 == 0xC0]
+
+
+# ------------------------------------------------------------------------------------------
 # mutations
 # ------------------------------------------------------------------------------------------
 def mutate(rng, data, msg=None):
@@ -428,7 +509,7 @@ def mutate(rng, data, msg=None):
     if not b:
         return bytes(b)
     for _ in range(rng.choice([1, 1, 1, 2, 3])):
-        m = rng.choice(["bit", "bit", "byte", "len16", "len8", "ptr", "trunc", "insert", "delete", "count"])
+        m = rng.choice(["bit", "bit", "byte", "len16", "len8", "ptr", "ptr2ptr", "ptr2ptr", "trunc", "insert", "delete", "count"])
         if m == "bit":
             i = rng.randrange(len(b))
             b[i] ^= 1 << rng.randrange(8)
@@ -452,6 +533,22 @@ def mutate(rng, data, msg=None):
                 tgt = rng.choice(msg.name_offsets + [o, 12])
             if o + 1 < len(b):
                 b[o:o + 2] = be16(0xC000 | (tgt & 0x3FFF))
+        elif m == "ptr2ptr":
+            # retarget a pointer to another POINTER (earlier or later), or make a label start a pointer
+            ptrs = list(msg.ptr_offsets) if (msg is not None and msg.ptr_offsets) else find_ptrs(b)
+            ptrs = [o for o in ptrs if o + 1 < len(b)]
+            if len(ptrs) >= 2:
+                o = rng.choice(ptrs)
+                tgt = rng.choice([x for x in ptrs if x != o])
+                b[o:o + 2] = be16(0xC000 | (tgt & 0x3FFF))
+                if rng.random() < 0.5:
+                    # close a cycle / hop forward: the target points on to a third pointer or back
+                    t2 = rng.choice(ptrs)
+                    b[tgt:tgt + 2] = be16(0xC000 | (t2 & 0x3FFF))
+            elif msg is not None and len(msg.name_offsets) >= 2:
+                o, tgt = rng.sample(msg.name_offsets, 2)
+                if o + 1 < len(b):
+                    b[o:o + 2] = be16(0xC000 | (tgt & 0x3FFF))
         elif m == "trunc":
             b = b[:rng.randrange(len(b) + 1)]
             if not b:
@@ -477,12 +574,16 @@ def pcase(rng, data, flags=None):
     return "p:%d|%s" % (f, data.hex())
 
 
-def expand_case(rng, data, is_name):
+def expand_case(rng, data, is_name, msg=None):
     """legacy ares_expand_name / ares_expand_string on a block"""
     if not data:
         data = b"\0"
     n = len(data)
     enc = rng.choice([0, 0, 12, 12, rng.randrange(n), n - 1, n, n + 1, -1])
+    cand = (msg.name_offsets + msg.ptr_offsets) if msg is not None else find_ptrs(data)
+    cand = [o for o in cand if o < n]
+    if is_name and cand and rng.random() < 0.7:
+        enc = rng.choice(cand)
     alen = rng.choice([n, n, n, n, max(1, n - 1), rng.randint(1, n), 0, -1, -2147483648])
     want = 0 if rng.random() < 0.15 else 1
     return "%s:%d:%d:%d|%s" % ("n" if is_name else "s", enc, alen, want, data.hex())
@@ -517,6 +618,7 @@ def gen(rng, tier, n):
         for d in [message(rng)[0] for _ in range(24)]:
             for f in range(64):
                 out.append(pcase(rng, d, f))
+    out += pointer_chain_cases(rng, tier)
     budget = max(0, n - len(out)) if tier != "thorough" else n
     target = len(out) + budget
     # truncation of one generated seed and one repository seed at every offset
@@ -547,10 +649,14 @@ def gen(rng, tier, n):
             d, _ = message(rng, "valid")
             out.append(pcase(rng, (d + bytes(big))[:big], 0))
         elif r < 0.92:
-            d = name_layout(rng) if rng.random() < 0.5 else message(rng)[0]
-            if rng.random() < 0.3:
-                d = mutate(rng, d)
-            out.append(expand_case(rng, d, True))
+            m = None
+            if rng.random() < 0.5:
+                d = name_layout(rng)
+            else:
+                d, m = message(rng)
+            if rng.random() < 0.4:
+                d = mutate(rng, d, m)
+            out.append(expand_case(rng, d, True, m))
         else:
             if rng.random() < 0.5:
                 s = charstr(rng, m=rng.choice([0, 1, 5, 255]), printable=rng.random() < 0.5)
@@ -714,6 +820,49 @@ def build_case(rng, shape=None):
     return head + "|" + ";".join(units)
 
 
+def escdot_case(rng):
+    """records whose names carry escapes (\\. \\\\ \\DDD) right in front of text that equals a name written
+    earlier in the message: the writer's suffix search must only compress at real label boundaries"""
+    base = [rand_label(rng, rng.choice(["word", "host"])) for _ in range(rng.choice([2, 2, 3]))]
+    stext = text_name(base)                       # e.g. smith.example.com
+    tails = [text_name(base[i:]) for i in range(len(base))]
+    x = rng.choice([b"john", b"a", b"", b"x-1", b"mail"])
+    nback = rng.choice([1, 1, 1, 2, 3, 4, 5])
+    variants = [
+        x + b"\\" * nback + b"." + stext,                 # odd run: escaped dot; even run: escaped backslash(es) + real dot
+        x + b"\\046" + stext,                             # \DDD dot glued to the suffix text
+        x + b"\\092." + stext,                            # \DDD backslash, then a real dot
+        x + b"\\." + rng.choice(tails),                   # escaped dot in front of a shorter earlier name
+        b"a\\.b." + stext,                               # escaped dot further left, real boundary at the suffix
+        x + b"." + base[0][:1] + b"\\." + text_name([base[0][1:] or b"z"] + base[1:]),   # escape inside the shared part
+        x + b"\\" * nback + b"." + stext + b".",          # with a trailing dot
+    ]
+    earlier_inner = text_name([base[0][1:] or b"z"] + base[1:])
+    units = ["q,%s,%d,1" % (stext.hex(), rng.choice([6, 2, 5, 12, 15]))]
+    # earlier names: the suffix itself, its tails, the text following an escape inside the shared part
+    for t in rng.sample(tails, len(tails)):
+        units.append("r,1,%s,2,1,60,201=s%s" % (t.hex(), rng.choice(tails).hex()))
+    if rng.random() < 0.5:
+        units.append("r,1,%s,5,1,60,501=s%s" % (stext.hex(), earlier_inner.hex()))
+    for _ in range(rng.choice([1, 2, 3])):
+        v = rng.choice(variants)
+        kind = rng.choice(["soa", "soa", "ns", "cname", "ptr", "mx", "owner"])
+        if kind == "soa":
+            other = rng.choice(variants + [stext])
+            units.append("r,%d,%s,6,1,300,601=s%s,602=s%s,603=1,604=2,605=3,606=4,607=5" % (rng.choice([1, 2]), stext.hex(), other.hex(), v.hex()))
+        elif kind == "ns":
+            units.append("r,2,%s,2,1,300,201=s%s" % (stext.hex(), v.hex()))
+        elif kind == "cname":
+            units.append("r,1,%s,5,1,300,501=s%s" % (stext.hex(), v.hex()))
+        elif kind == "ptr":
+            units.append("r,1,%s,12,1,300,1201=s%s" % (stext.hex(), v.hex()))
+        elif kind == "mx":
+            units.append("r,1,%s,15,1,300,1501=10,1502=s%s" % (stext.hex(), v.hex()))
+        else:
+            units.append("r,1,%s,1,1,300,101=01020304" % v.hex())
+    return "b:%d:0:0:0|%s" % (rng.randrange(65536), ";".join(units))
+
+
 def query_case(rng):
     seeds = seed_names()
     r = rng.random()
@@ -742,6 +891,8 @@ def gen_c03(rng, tier, n):
         elif r < 0.60:
             d, _ = message(rng, "valid")
             out.append("t:%d:%d|%s" % (rng.choice([0, 0, 1, 2, 3]), rng.choice([0, 0, 0, 1, 2, 7, 30, 10000]), d.hex()))
+        elif r < 0.66:
+            out.append(escdot_case(rng))
         elif r < 0.90:
             shape = rng.choice(["small", "small", "small", "shared", "shared", "escapes", "odd"])
             if big_budget > 0 and rng.random() < 0.02:
